@@ -356,6 +356,7 @@ def run(prop_cls, tier, seed, replay=None):
         return any(k.get("match") and k["match"] in v for k in known_open)
 
     known_hit = set()
+    oracle_exceptions = []
     pool = list(cases)
     if breaks:
         pool = [d["case"] for d in disagreements] + pool + list(prop.search_cases())
@@ -370,6 +371,7 @@ def run(prop_cls, tier, seed, replay=None):
             vs = prop.oracle(c)
         except Exception as exc:  # noqa: BLE001
             vs = []
+            oracle_exceptions.append(repr(exc)[:300])
             log("oracle exception", repr(exc), traceback.format_exc()[-600:])
         for v in vs:
             if is_known(v):
@@ -443,6 +445,10 @@ def run(prop_cls, tier, seed, replay=None):
     os.makedirs(os.path.join(VERIF, "evidence"), exist_ok=True)
     with open(os.path.join(VERIF, "evidence", f"{pid}.json"), "w", encoding="utf-8") as fh:
         json.dump(ev, fh, indent=1, ensure_ascii=False)
+    if oracle_exceptions and rc == 0:
+        # an oracle that could not decide its case has not shown the property to hold there: no verdict (infrastructure)
+        print(f"INFRA: {len(oracle_exceptions)} oracle call(s) raised instead of deciding, first: {oracle_exceptions[0]}")
+        rc = 2
     log(f"{pid} {tier} seed={seed}: rc={rc} obligations={obligations} discharged={disch} cases={evaluations} "
         f"distinct={len(distinct)} disagreements={len(disagreements)} wall={time.time()-t0:.1f}s")
     return rc
